@@ -63,6 +63,18 @@ def run(ck, F, E):
         ck.require(ok, "C15:PIPE:into_interpreter", "same storing pipeline",
                    "into_interpreter resets the runtime state, then hands its own Program and StringManager to from_program",
                    "into_interpreter no longer passes the analyzed program (after a runtime reset) to the interpreter", ii.span)
+    rr = F.one("Program::reset_runtime_state")
+    sn = F.one("Program::set_numbered_line")
+    if rr is not None and sn is not None:
+        from props.C11 import holders
+        hs = holders(F) or []
+        k_load = {p[0][1] for (k, p) in E.info[rr.path].kills if k == 0 and len(p) == 1}
+        k_type = {p[0][1] for (k, p) in E.info[sn.path].kills if k == 0 and len(p) == 1}
+        missing = [h for h in hs if h in k_type and h not in k_load]
+        ck.require(not missing and bool(hs), "C15:PIPE:same-runtime-reset", "same storing pipeline",
+                   "reset_runtime_state (file path) leaves fresh everything that entering a line (prompt path) leaves fresh",
+                   "after loading a file Program.%s still holds what static analysis left there, whereas typing the lines resets it: "
+                   "e.g. functions defined during analysis are already defined when the loaded program starts" % missing, rr.span)
     fpb = get_fn(ck, F, "Interpreter::from_program")
     if fpb is not None:
         ok = False
